@@ -584,6 +584,11 @@ func (db *Backend) ListBucketVersions(
 		}
 	}
 
+	// Every key has been visited: nothing follows. (The iterator must not be
+	// asked again once it has run out: after a seek behind the last key it
+	// starts over.)
+	return result, nil
+
 done:
 	result.IsTruncated = truncated || iter.Next()
 	if !result.IsTruncated {
